@@ -142,8 +142,8 @@ func stormKey(j *job) string {
 
 func stormKey1(j *job) string {
 	t := j.toks
-	if len(t) < 2 {
-		return ""
+	if len(t) < 2 || t[1] == "abuse" || t[1] == "other-table" || t[1] == "reuse" {
+		return "" // calls the properties say nothing about: made alone, what matters is what follows them
 	}
 	switch t[0] {
 	case "ival", "tod", "text", "misc":
